@@ -123,6 +123,71 @@ func lengthValues(lf lenField, thorough bool) []uint64 {
 	return vs
 }
 
+// consistentTruncations cuts b after the T, after the TL, and inside the V of EVERY (nested) element and
+// repairs all enclosing length fields, so that every outer TLV stays self-consistent and only the
+// last element is short by itself.
+func consistentTruncations(b []byte) [][]byte {
+	var lfs []lenField
+	var typs [][2]int
+	findLengths(b, 0, 0, &lfs, &typs)
+	seen := map[string]bool{}
+	var out [][]byte
+	for _, lf := range lfs {
+		cuts := []int{lf.off, lf.valOff}
+		if lf.val >= 1 {
+			cuts = append(cuts, lf.valOff+int(lf.val)-1)
+		}
+		if lf.val >= 4 {
+			cuts = append(cuts, lf.valOff+int(lf.val)/2)
+		}
+		for _, c := range cuts {
+			nb := cutRepair(b, c)
+			if nb != nil && !seen[string(nb)] {
+				seen[string(nb)] = true
+				out = append(out, nb)
+			}
+		}
+	}
+	return out
+}
+
+// cutRepair keeps b[:cut] and rewrites the length of every TLV that encloses the cut position.
+func cutRepair(b []byte, cut int) []byte {
+	pos := 0
+	for pos < len(b) {
+		_, p1, ok := readTL(b, pos)
+		if !ok {
+			return nil
+		}
+		l, p2, ok := readTL(b, p1)
+		if !ok || l > uint64(len(b)-p2) {
+			return nil
+		}
+		end := p2 + int(l)
+		if cut >= end {
+			pos = end
+			continue
+		}
+		// the cut falls into this element
+		out := append([]byte{}, b[:pos]...)
+		if cut <= p2 {
+			return append(out, b[pos:cut]...) // short by itself: only (part of) its header is left
+		}
+		val := b[p2:end]
+		if len(val) >= 2 && splitsExactly(val) {
+			inner := cutRepair(val, cut-p2)
+			if inner == nil {
+				return nil
+			}
+			out = append(out, b[pos:p1]...)
+			out = append(out, c13.EncTL(uint64(len(inner)))...)
+			return append(out, inner...)
+		}
+		return append(out, b[pos:cut]...) // leaf element: short by itself
+	}
+	return append([]byte{}, b[:cut]...)
+}
+
 type mutation struct {
 	kind string
 	b    []byte
